@@ -12,7 +12,17 @@ Theorem C07_values : forall v st r, wf v = true -> abs st = enc v ++ r ->
               /\ abs st' = r /\ tl st' = tl st.
 Proof. exact C07_values_chunked. Qed.
 
-(* every well-formed conversation outside the recorded finding classes (excl), every
+(* The full statement (no exclusions) is false on the model of the code: legal reply shapes that
+   the dissector rejects or cannot represent (known/resp.json).  Each witness, replayed on the
+   implementation, is one of the recorded findings. *)
+Theorem C07_refuted : ~ C07_statement.                       (* +FOO : unknown keyword (D14) *)
+Proof. exact RespC07.C07_refuted. Qed.
+Theorem C07_refuted_null : ~ C07_statement.                  (* $-1 reported as empty bulk (R1) *)
+Proof. exact RespC07.C07_refuted_null. Qed.
+Theorem C07_refuted_array : ~ C07_statement.                 (* reply array treated as a command (D15/D16) *)
+Proof. exact RespC07.C07_refuted_array. Qed.
+
+(* C07_partial: every well-formed conversation outside the recorded finding classes (excl), every
    segmentation of both directions, every end-of-stream kind: both halves run to the end of
    their stream, the items are the exchanges in order with type and content as sent, and the
    matcher is left empty *)
